@@ -1429,6 +1429,7 @@ fn read_command_div(cur: &mut SourceCursor, song: &mut Song, need2back: bool) ->
     // is 1char command
     if need2back {
         cur.prev();
+        cur.replace_char('{'); // full-width '｛' is read as '{' (get_token_nest would not see it open the block, and the block would contain itself)
     } else {
         cur.skip_space();
     }
